@@ -202,10 +202,20 @@ def r2(ctx):
     res = P.call('ic_btc_canister::heartbeat::ingest_stable_blocks_into_utxoset')
     for c in later:
         conds = cond_exprs(prog, hb, c.bb)
-        done = any(P.is_(res, 'Done')(k) for k in conds)
-        notwork = any(k[0] == 'switch' and k[2] == ('0',) and P.has(P.downcast('Done', res))(k[1]) for k in conds) or \
-            any(P.not_(P.has(P.downcast('Done', res)))(k) for k in conds)
-        ctx.check(done and notwork, 'R2', 'gated:' + c.short.rsplit('::', 1)[-1], c,
+
+        def done_false(conds):
+            done = any(P.is_(res, 'Done')(k) for k in conds)
+            notwork = any(k[0] == 'switch' and k[2] == ('0',) and P.has(P.downcast('Done', res))(k[1]) for k in conds) or \
+                any(P.not_(P.has(P.downcast('Done', res)))(k) for k in conds)
+            return done and notwork
+        good = done_false(conds)
+        if not good:
+            # the tests need not be on the dominator chain (two `if let` in sequence join again):
+            # decide on the exact path condition, every feasible disjunct must say Done(false)
+            from sa.expr import feasible_path_conditions
+            dnf = feasible_path_conditions(prog, hb, c.bb)
+            good = bool(dnf) and all(done_false(conj) for conj in dnf)
+        ctx.check(good, 'R2', 'gated:' + c.short.rsplit('::', 1)[-1], c,
                   '%s runs only when ingestion returned Done(false)' % c.short.rsplit('::', 1)[-1],
                   '%s can run in a round in which ingestion paused or did work (conditions: %s)' % (c.short.rsplit('::', 1)[-1], fmt_conds(conds)[:200]))
     w = ctx.fn('R2', 'ic_btc_canister::heartbeat::ingest_stable_blocks_into_utxoset')
